@@ -292,7 +292,13 @@ def _run_main(res, ctx):
             if "error" in model[i]:
                 res.break_("driver-error", model[i]["error"])
             else:
-                diff = C.compare_scan(rl, model[i], blids)
+                if str(meta.get("context", "")).startswith("deep:"):
+                    # a deep nest: other checks (B703, B608) recurse to a depth proportional to the program and run into CPython's recursion limit, which the
+                    # model does not have (known finding C06-recursion-limit, C06's business): compare the blacklist findings only
+                    diff = C.compare_scan({"findings": [f for f in rl["findings"] if f[0] in blids], "errors": [e for e in rl["errors"] if e == "blacklist"]},
+                                          dict(model[i], findings=[f for f in model[i]["findings"] if f[0] in blids], crashes=[c for c in model[i].get("crashes", []) if c == "blacklist"]), blids)
+                else:
+                    diff = C.compare_scan(rl, model[i], blids)
                 if diff:
                     res.break_("correspondence", json_safe({"program": src, "diff": diff}))
                     res.count("correspondence-mismatch")
